@@ -56,6 +56,18 @@ theorem concat_inv (body : Nat → Array γ → Option (Array γ)) (chunk : Nat 
   simp only [Nat.zero_add] at hrs hrv
   exact ⟨res, e, hrs, hrv⟩
 
+/-- the same, followed by a continuation (the loop body is taken from the goal) -/
+theorem concat_bind_inv {τ : Type} (body : Nat → Array γ → Option (Array γ)) (chunk : Nat → Array γ)
+    (cnt n : Nat) (k : Array γ → Option τ) (Q : τ → Prop)
+    (hbody : ∀ i res, i < cnt → body i res = some (res ++ chunk i))
+    (hsz : ∀ i, i < cnt → (chunk i).size = n)
+    (hk : ∀ res : Array γ, res.size = cnt * n →
+      (∀ i j, i < cnt → j < n → res[i * n + j]? = (chunk i)[j]?) → ∃ r, k res = some r ∧ Q r) :
+    ∃ r, (forRange body 0 cnt #[]).bind k = some r ∧ Q r := by
+  obtain ⟨res, e, hrs, hrv⟩ := concat_inv body chunk cnt n hbody hsz
+  obtain ⟨r, er, hq⟩ := hk res hrs hrv
+  exact ⟨r, by rw [e, Option.bind_some, er], hq⟩
+
 end generic
 
 /-! ### a transform over rows `[B; N]` acts slot-wise -/
@@ -119,6 +131,484 @@ theorem fftRec_rows (tw : Nat → F) (N k : Nat) : ∀ (x : Nat → Array F),
       rw [← vw_of_lt e i (by rw [hes]; exact hi), ← vw_of_lt o' i (by rw [hos']; exact hi), hev i hi, hov' i hi,
         hov i hi]
       rfl
+
+/-! ### evaluation offsets and the point a cell is evaluated at -/
+
+theorem vw_ofFn (g : Nat → F) (n i : Nat) (hi : i < n) : vw (Array.ofFn (n := n) (fun j => g j)) i = g i := by
+  rw [vw_eq_getElem?, getElem?_ofFn' g n i hi]; rfl
+
+/-- position `q` of the permuted concatenation of `2^b` chunks comes from chunk `Pq / n`, position `Pq % n`
+    (`Pq` the bit reversal of `q`), and the point that chunk/position was evaluated at is `off · g^q` -/
+theorem coset_point (τ : F) (A k b : Nat) (hk : k + 1 + b ≤ A) (off : F) (q : Nat) (hq : q < 2 ^ (k + 1 + b)) :
+    let n := 2 ^ (k + 1)
+    let Pq := brev (k + 1 + b) q
+    Pq / n < 2 ^ b ∧ Pq % n < n ∧ Pq = (Pq / n) * n + Pq % n ∧
+    rootK τ A (k + 1) ^ brev (k + 1) (Pq % n) * (rootK τ A (k + 1 + b) ^ brev b (Pq / n) * off)
+      = off * rootK τ A (k + 1 + b) ^ q := by
+  intro n Pq
+  have hn : n * 2 ^ b = 2 ^ (k + 1 + b) := (Nat.pow_add 2 (k + 1) b).symm
+  have hPlt : Pq < 2 ^ (k + 1 + b) := brev_lt _ _
+  have hnpos : 0 < n := Nat.pow_pos (by decide)
+  have hdecomp : Pq = (Pq / n) * n + Pq % n := by
+    have := Nat.div_add_mod Pq n
+    rw [Nat.mul_comm] at this; omega
+  have hi : Pq / n < 2 ^ b := by
+    rw [Nat.div_lt_iff_lt_mul hnpos, Nat.mul_comm, hn]; exact hPlt
+  have hj : Pq % n < n := Nat.mod_lt _ hnpos
+  refine ⟨hi, hj, hdecomp, ?_⟩
+  rw [← rootK_pow_blowup τ A (k + 1) b hk, ← pow_mul, mul_comm off, ← mul_assoc, ← pow_add]
+  congr 2
+  have hc := brev_concat (k + 1) b (Pq / n) (Pq % n) hj
+  rw [← hdecomp] at hc
+  have hbb : brev (k + 1 + b) Pq = q := brev_brev _ _ hq
+  rw [hbb] at hc
+  rw [hc]; ring
+
+/-- `get_evaluation_offsets`: entry `c·n + row` is `(g^{brev b c} · off)^row` -/
+theorem evaluationOffsets_spec (τ : F) (A k b : Nat) (hk : k + 1 + b ≤ A) (hb64 : b ≤ 64) (off : F) :
+    ∃ offs, evaluationOffsets (fieldOps F τ A) (2 ^ (k + 1)) (2 ^ b) off = some offs ∧
+      offs.size = 2 ^ b * 2 ^ (k + 1) ∧
+      ∀ c row, c < 2 ^ b → row < 2 ^ (k + 1) →
+        offs[c * 2 ^ (k + 1) + row]? = some ((rootK τ A (k + 1 + b) ^ brev b c * off) ^ row) := by
+  have hn : (2 : Nat) ^ (k + 1) * 2 ^ b = 2 ^ (k + 1 + b) := (Nat.pow_add 2 (k + 1) b).symm
+  unfold evaluationOffsets
+  rw [hn, ilog2_two_pow]
+  simp only [rootOfUnity_fieldOps τ A (k + 1 + b) hk (by omega)]
+  have hne : ¬ (2 ^ (k + 1) = 0) := by positivity
+  rw [if_neg hne]
+  have e0 : (Array.mkEmpty (2 ^ (k + 1 + b)) : Array F) = #[] := rfl
+  rw [e0]
+  set g := rootK τ A (k + 1 + b) with hg
+  obtain ⟨res, e, hrs, hrv⟩ := concat_inv
+    (fun c (res : Array F) =>
+      match permuteIndex (2 ^ b) c with
+      | none => none
+      | some idx =>
+        let off' := (fieldOps F τ A).mul ((fieldOps F τ A).exp g idx) off
+        some (res ++ (powersFrom (fieldOps F τ A).mul off' (2 ^ (k + 1)) (fieldOps F τ A).one).toArray))
+    (fun c => (powersFrom (· * ·) (g ^ brev b c * off) (2 ^ (k + 1)) 1).toArray) (2 ^ b) (2 ^ (k + 1))
+    (by
+      intro c res hc
+      rw [permuteIndex_two_pow b c hb64 hc]
+      rfl)
+    (by intro c _; simp [powersFrom_length])
+  refine ⟨res, e, hrs, ?_⟩
+  intro c row hc hrow
+  rw [hrv c row hc hrow]
+  have := powersFrom_getElem? (g ^ brev b c * off) (2 ^ (k + 1)) 1 row hrow
+  rw [one_mul] at this
+  simpa using this
+
+/-! ### one segment -/
+
+/-- coefficient `row` of base column `c` of the column-major matrix -/
+def colv (polys : Array (Array F)) (c row : Nat) : F := vw (vw polys c) row
+
+/-- cell `(row, i)` of a chunk before the transform: the coefficient times `pt^row`, zero in unused slots -/
+def cellPre (polys : Array (Array F)) (po : Nat) (pt : F) (row i : Nat) : F :=
+  if po + i < polys.size then colv polys (po + i) row * pt ^ row else 0
+
+theorem segmentChunk_spec (polys : Array (Array F)) (n N po : Nat) (offs : Array F) (c : Nat) (pt : F)
+    (hcols : ∀ j, j < polys.size → (vw polys j).size = n)
+    (hoffs : ∀ row, row < n → offs[c * n + row]? = some (pt ^ row)) :
+    segmentChunk (· * ·) (0 : F) N (min (polys.size - po) N) polys n po offs c
+      = some (Array.ofFn (n := n) fun row => Array.ofFn (n := N) fun i => cellPre polys po pt row i) := by
+  unfold segmentChunk
+  apply buildArr_spec (g := fun row => Array.ofFn (n := N) fun i => cellPre polys po pt row i)
+  intro row hrow
+  rw [hoffs row hrow]
+  simp only
+  apply buildArr_spec (g := fun i => cellPre polys po pt row i)
+  intro i hi
+  unfold cellPre colv
+  by_cases hlt : po + i < polys.size
+  · have h1 : i < min (polys.size - po) N := by omega
+    rw [if_pos h1, if_pos hlt, Array.getElem?_eq_getElem hlt]
+    have hsz := hcols (po + i) hlt
+    rw [vw_of_lt polys _ hlt] at hsz ⊢
+    have hr : row < (polys[po + i]).size := by rw [hsz]; exact hrow
+    simp only
+    rw [Array.getElem?_eq_getElem hr, vw_of_lt _ _ hr]
+    rfl
+  · have h1 : ¬ i < min (polys.size - po) N := by omega
+    rw [if_neg h1, if_neg hlt]
+
+/-- `Segment::new` for the segment starting at base column `po`: row `q`, slot `i` is the evaluation of base
+    column `po + i` at `off · g^q`, zero in the unused slots of a ragged segment -/
+theorem segmentNew_spec (τ : F) (A k b : Nat) (hτ : IsPrimitiveRoot τ (2 ^ A)) (hk : k + 1 + b ≤ A)
+    (hk64 : k + 1 + b ≤ 64) (hb : 1 ≤ b) (maxLoop N : Nat) (polys : Array (Array F)) (po : Nat)
+    (hpo : po < polys.size) (hcols : ∀ j, j < polys.size → (vw polys j).size = 2 ^ (k + 1))
+    (tw : Array F) (htw : getTwiddles (fieldOps F τ A) (2 ^ (k + 1)) = some tw)
+    (off : F) (offs : Array F) (hos : offs.size = 2 ^ b * 2 ^ (k + 1))
+    (hov : ∀ c row, c < 2 ^ b → row < 2 ^ (k + 1) →
+        offs[c * 2 ^ (k + 1) + row]? = some ((rootK τ A (k + 1 + b) ^ brev b c * off) ^ row)) :
+    ∃ seg, segmentNew (fieldRowOps F) (· * ·) (0 : F) maxLoop N polys (2 ^ (k + 1)) po offs tw = some seg ∧
+      seg.size = 2 ^ (k + 1 + b) ∧
+      ∀ q, q < 2 ^ (k + 1 + b) → (vw seg q).size = N ∧
+        ∀ i, i < N → vw (vw seg q) i =
+          if po + i < polys.size then
+            evalAt (2 ^ (k + 1)) (colv polys (po + i)) (off * rootK τ A (k + 1 + b) ^ q)
+          else 0 := by
+  obtain ⟨tw', e', hts, htv⟩ := getTwiddles_spec (F := F) τ A k (by omega) (by omega)
+  rw [htw] at e'
+  obtain rfl : tw = tw' := Option.some.inj e'
+  have hn : (2 : Nat) ^ (k + 1) * 2 ^ b = 2 ^ (k + 1 + b) := (Nat.pow_add 2 (k + 1) b).symm
+  have hn' : (2 : Nat) ^ b * 2 ^ (k + 1) = 2 ^ (k + 1 + b) := by rw [← hn]; ring
+  set n := 2 ^ (k + 1) with hnn
+  set g := rootK τ A (k + 1 + b) with hg
+  set ω := rootK τ A (k + 1) with hω
+  have hnpos : 0 < n := Nat.pow_pos (by decide)
+  unfold segmentNew
+  rw [hos, hn']
+  have c1 : ¬ ¬ (isPow2 (2 ^ (k + 1 + b)) = true ∧ 2 ^ (k + 1 + b) > n ∧ n = tw.size * 2 ∧ po < polys.size) := by
+    refine not_not.mpr ⟨isPow2_two_pow _, ?_, ?_, hpo⟩
+    · exact Nat.pow_lt_pow_right (by decide) (by omega)
+    · rw [hts, hnn, Nat.pow_succ]
+  have c2 : ¬ (n = 0) := by omega
+  have hdiv : 2 ^ (k + 1 + b) / n = 2 ^ b := by rw [← hn']; exact Nat.mul_div_cancel _ hnpos
+  rw [if_neg c1, if_neg c2, hdiv]
+  have e0 : (Array.mkEmpty (2 ^ (k + 1 + b)) : Array (Array F)) = #[] := rfl
+  rw [e0]
+  dsimp only
+  -- the transformed chunks
+  let pt : Nat → F := fun c => g ^ brev b c * off
+  let pre : Nat → Array (Array F) := fun c =>
+    Array.ofFn (n := n) fun row => Array.ofFn (n := N) fun i => cellPre polys po (pt c) row i
+  let chunk : Nat → Array (Array F) := fun c => (fftTop (fieldRowOps F) maxLoop tw (pre c)).getD #[]
+  have hpreget : ∀ c j, j < n → (pre c)[j]? = some (Array.ofFn (n := N) fun i => cellPre polys po (pt c) j i) :=
+    fun c j hj => getElem?_ofFn' (fun row => Array.ofFn (n := N) fun i => cellPre polys po (pt c) row i) n j hj
+  have hpre : ∀ c, c < 2 ^ b → segmentChunk (· * ·) (0 : F) N (min (polys.size - po) N) polys n po offs c
+      = some (pre c) := fun c hc =>
+    segmentChunk_spec polys n N po offs c (pt c) hcols (fun row hrow => hov c row hc hrow)
+  have hchunk : ∀ c, c < 2 ^ b → fftTop (fieldRowOps F) maxLoop tw (pre c) = some (chunk c) ∧
+      (chunk c).size = n ∧ ∀ m, m < n → (vw (chunk c) m).size = N ∧ ∀ i, i < N →
+        vw (vw (chunk c) m) i =
+          if po + i < polys.size then evalAt n (colv polys (po + i)) (ω ^ brev (k + 1) m * pt c) else 0 := by
+    intro c _
+    have hps : (pre c).size = 2 ^ (k + 1) := by simp only [pre, Array.size_ofFn]; exact hnn
+    obtain ⟨bc, ebc, hbs, hbv⟩ := fftTop_spec (fieldRowOps F) maxLoop tw k (pre c) hps (by omega)
+    have hcb : chunk c = bc := by simp [chunk, ebc]
+    rw [hcb]
+    refine ⟨ebc, by rw [hbs, hps], ?_⟩
+    intro m hm
+    rw [hbv m hm]
+    have hrows : ∀ j, j < 2 ^ (k + 1) → (vw (pre c) j).size = N := by
+      intro j hj
+      rw [vw_eq_getElem?, hpreget c j hj]
+      simp
+    obtain ⟨hsz, hsl⟩ := fftRec_rows (twf tw) N (k + 1) (vw (pre c)) hrows m hm
+    refine ⟨hsz, ?_⟩
+    intro i hi
+    rw [hsl i hi]
+    have hTw : TwOk (twf tw) ω (k + 1) := by
+      intro i _ hi
+      simp only [Nat.add_sub_cancel] at hi ⊢
+      exact htv i hi
+    rw [fftRec_eq_dft (k + 1) ω (twf tw) _
+      (fun _ => by simpa using rootK_half τ A (k + 1) (by omega) (by omega) hτ) hTw _ hm]
+    -- slot `i` of the chunk rows is the shifted column (or zero)
+    have hslot : ∀ j, j < n → vw (vw (pre c) j) i = cellPre polys po (pt c) j i := by
+      intro j hj
+      have : vw (pre c) j = Array.ofFn (n := N) fun i => cellPre polys po (pt c) j i := by
+        rw [vw_eq_getElem?, hpreget c j hj]; rfl
+      rw [this, vw_ofFn _ N i hi]
+    rw [dft_congr ω n _ _ hslot]
+    by_cases hlt : po + i < polys.size
+    · rw [if_pos hlt]
+      unfold dft
+      apply evalAt_shift
+      intro j _
+      simp only [cellPre, if_pos hlt, smul_eq_mul]
+      ring
+    · rw [if_neg hlt]
+      simp [dft, evalAt, cellPre, hlt]
+  apply concat_bind_inv (chunk := chunk) (n := n)
+    (Q := fun seg => seg.size = 2 ^ (k + 1 + b) ∧
+      ∀ q, q < 2 ^ (k + 1 + b) → (vw seg q).size = N ∧
+        ∀ i, i < N → vw (vw seg q) i =
+          if po + i < polys.size then evalAt n (colv polys (po + i)) (off * g ^ q) else 0)
+  · intro c res hc
+    simp only [hpre c hc, (hchunk c hc).1, Option.map_some]
+  · exact fun c hc => (hchunk c hc).2.1
+  · intro res hrs hrv
+    have hrsz : res.size = 2 ^ (k + 1 + b) := by rw [hrs, hn']
+    obtain ⟨seg, es, hss, hsv⟩ := permute_spec (k + 1 + b) hk64 res hrsz
+    refine ⟨seg, es, by rw [hss, hrsz], ?_⟩
+    intro q hq
+    obtain ⟨hi, hj, hdecomp, hpt⟩ := coset_point τ A k b hk off q hq
+    have h1 := hsv q (by rw [hrsz]; exact hq)
+    have h2 : vw seg q = vw (chunk (brev (k + 1 + b) q / n)) (brev (k + 1 + b) q % n) := by
+      rw [vw_eq_getElem?, h1, hdecomp, hrv _ _ hi hj, ← vw_eq_getElem?, ← hdecomp]
+    rw [h2]
+    obtain ⟨hsz, hsl⟩ := (hchunk _ hi).2.2 _ hj
+    refine ⟨hsz, ?_⟩
+    intro i hiN
+    rw [hsl i hiN]
+    by_cases hlt : po + i < polys.size
+    · rw [if_pos hlt, if_pos hlt, hpt]
+    · rw [if_neg hlt, if_neg hlt]
+
+/-! ### transposition and flattening -/
+
+theorem idx_inj (S i j i' j' : Nat) (hj : j < S) (hj' : j' < S) (h : i * S + j = i' * S + j') :
+    i = i' ∧ j = j' := by
+  rcases Nat.lt_trichotomy i i' with hlt | heq | hgt
+  · exfalso
+    obtain ⟨d, hd⟩ := Nat.exists_eq_add_of_lt hlt
+    subst hd
+    have e : (i + d + 1) * S = i * S + d * S + S := by ring
+    rw [e] at h; omega
+  · subst heq; exact ⟨rfl, by omega⟩
+  · exfalso
+    obtain ⟨d, hd⟩ := Nat.exists_eq_add_of_lt hgt
+    subst hd
+    have e : (i' + d + 1) * S = i' * S + d * S + S := by ring
+    rw [e] at h; omega
+
+theorem idx_lt (S R i j : Nat) (hi : i < R) (hj : j < S) : i * S + j < R * S := by
+  have : (i + 1) * S ≤ R * S := Nat.mul_le_mul_right S hi
+  have e : (i + 1) * S = i * S + S := by ring
+  omega
+
+/-- `transpose`: row `i` of segment `j` lands at index `i * S + j` -/
+theorem transposeSegments_spec {β' : Type} (segs : Array (Array (Array β'))) (R : Nat)
+    (hS : 0 < segs.size) (hrows : ∀ j, j < segs.size → (vw segs j).size = R) :
+    ∃ T, transposeSegments segs R = some T ∧ T.size = R * segs.size ∧
+      ∀ i j, i < R → j < segs.size → vw T (i * segs.size + j) = vw (vw segs j) i := by
+  unfold transposeSegments
+  by_cases h1 : segs.size = 1
+  · rw [if_pos h1]
+    refine ⟨vw segs 0, ?_, ?_, ?_⟩
+    · rw [vw_of_lt segs 0 hS]; exact Array.getElem?_eq_getElem hS
+    · rw [hrows 0 hS, h1]; ring
+    · intro i j _ hj
+      have : j = 0 := by omega
+      subst this
+      rw [h1]; simp
+  · rw [if_neg h1]
+    set S := segs.size with hSdef
+    let P : Nat → Array (Array β') → Prop := fun t res => res.size = R * S ∧
+      ∀ i j, i < t → j < S → vw res (i * S + j) = vw (vw segs j) i
+    obtain ⟨T, e, hP⟩ := forRange_inv (σ := Array (Array β'))
+      (fun i res =>
+        forRange (fun j (res : Array (Array β')) =>
+          match segs[j]? with
+          | none => none
+          | some seg =>
+            match seg[i]? with
+            | none => none
+            | some cells =>
+              if h : i * S + j < res.size then some (res.set (i * S + j) cells) else none)
+          0 S res) P R 0 (Array.replicate (R * S) #[])
+      ⟨by simp, fun i j hi _ => by omega⟩
+      (by
+        intro t res _ ht ⟨hrs, hrv⟩
+        simp only [Nat.zero_add] at ht
+        let Pin : Nat → Array (Array β') → Prop := fun u res => res.size = R * S ∧
+          (∀ i j, i < t → j < S → vw res (i * S + j) = vw (vw segs j) i) ∧
+          (∀ j, j < u → vw res (t * S + j) = vw (vw segs j) t)
+        obtain ⟨res', e', hP'⟩ := forRange_inv (σ := Array (Array β'))
+          (fun j (res : Array (Array β')) =>
+            match segs[j]? with
+            | none => none
+            | some seg =>
+              match seg[t]? with
+              | none => none
+              | some cells =>
+                if h : t * S + j < res.size then some (res.set (t * S + j) cells) else none)
+          Pin S 0 res ⟨hrs, hrv, fun j hj => by omega⟩
+          (by
+            intro u r _ hu ⟨hr1, hr2, hr3⟩
+            simp only [Nat.zero_add] at hu
+            have hseg : segs[u]? = some (vw segs u) := by
+              rw [vw_of_lt segs u hu]; exact Array.getElem?_eq_getElem hu
+            have hsz := hrows u hu
+            have hcell : (vw segs u)[t]? = some (vw (vw segs u) t) := by
+              rw [vw_of_lt (vw segs u) t (by rw [hsz]; exact ht)]
+              exact Array.getElem?_eq_getElem (by rw [hsz]; exact ht)
+            have hidx : t * S + u < r.size := by rw [hr1]; exact idx_lt S R t u ht hu
+            simp only [hseg, hcell, hidx, ↓reduceDIte]
+            refine ⟨_, rfl, by simp [hr1], ?_, ?_⟩
+            · intro i j hi hj
+              rw [vw_set]
+              have hne : ¬ (i * S + j = t * S + u) := by
+                intro h; have := (idx_inj S i j t u hj hu h).1; omega
+              rw [if_neg hne]; exact hr2 i j hi hj
+            · intro j hj
+              rw [vw_set]
+              by_cases hju : j = u
+              · subst hju; rw [if_pos rfl]
+              · have hne : ¬ (t * S + j = t * S + u) := by omega
+                rw [if_neg hne]; exact hr3 j (by omega))
+        simp only [Nat.zero_add] at hP'
+        obtain ⟨h1', h2', h3'⟩ := hP'
+        refine ⟨res', e', h1', ?_⟩
+        intro i j hi hj
+        by_cases hit : i < t
+        · exact h2' i j hit hj
+        · have : i = t := by omega
+          subst this
+          exact h3' j hj)
+    simp only [Nat.zero_add] at hP
+    exact ⟨T, e, hP.1, hP.2⟩
+
+theorem flattenRows_spec {β' : Type} (rows : Array (Array β')) (N : Nat)
+    (hsz : ∀ t, t < rows.size → (vw rows t).size = N) :
+    ∃ d, flattenRows rows = some d ∧ d.size = rows.size * N ∧
+      ∀ t e, t < rows.size → e < N → d[t * N + e]? = (vw rows t)[e]? := by
+  unfold flattenRows
+  exact concat_inv (fun t (res : Array β') => (rows[t]?).map (res ++ ·)) (fun t => vw rows t) rows.size N
+    (by
+      intro t res ht
+      rw [Array.getElem?_eq_getElem ht, vw_of_lt rows t ht]
+      rfl)
+    hsz
+
+/-- number of segments of width `N` for `C` base columns (`build_segments`) -/
+def numSegments (C N : Nat) : Nat := if C % N = 0 then C / N else C / N + 1
+
+theorem numSegments_props (C N : Nat) (hN : 0 < N) (hC : 0 < C) :
+    0 < numSegments C N ∧ C ≤ numSegments C N * N ∧ ∀ i, i < numSegments C N → i * N < C := by
+  unfold numSegments
+  have hdm := Nat.div_add_mod C N
+  have hmod := Nat.mod_lt C hN
+  by_cases h : C % N = 0
+  · rw [if_pos h]
+    have e : C / N * N = C := by rw [Nat.mul_comm]; omega
+    refine ⟨?_, by omega, ?_⟩
+    · rcases Nat.eq_zero_or_pos (C / N) with h0 | h0
+      · rw [h0] at e; omega
+      · exact h0
+    · intro i hi
+      have : (i + 1) * N ≤ C / N * N := Nat.mul_le_mul_right N hi
+      have e2 : (i + 1) * N = i * N + N := by ring
+      omega
+  · rw [if_neg h]
+    have e : (C / N + 1) * N = N * (C / N) + N := by ring
+    refine ⟨Nat.succ_pos _, by rw [e]; omega, ?_⟩
+    intro i hi
+    have : i * N ≤ C / N * N := Nat.mul_le_mul_right N (by omega)
+    have e2 : C / N * N = N * (C / N) := Nat.mul_comm _ _
+    omega
+
+/-- `build_segments` + `from_segments`: the flat data of the row-major matrix -/
+theorem rowMatrixFromPolys_spec (τ : F) (A k b : Nat) (hτ : IsPrimitiveRoot τ (2 ^ A)) (hk : k + 1 + b ≤ A)
+    (hk64 : k + 1 + b ≤ 64) (hb : 1 ≤ b) (maxLoop N : Nat) (hN : 0 < N) (polys : Array (Array F))
+    (hC : 0 < polys.size) (hcols : ∀ j, j < polys.size → (vw polys j).size = 2 ^ (k + 1))
+    (tw : Array F) (htw : getTwiddles (fieldOps F τ A) (2 ^ (k + 1)) = some tw)
+    (off : F) (offs : Array F) (hos : offs.size = 2 ^ b * 2 ^ (k + 1))
+    (hov : ∀ c row, c < 2 ^ b → row < 2 ^ (k + 1) →
+        offs[c * 2 ^ (k + 1) + row]? = some ((rootK τ A (k + 1 + b) ^ brev b c * off) ^ row)) :
+    ∃ rm, rowMatrixFromPolys (fieldRowOps F) (· * ·) (0 : F) maxLoop N polys (2 ^ (k + 1)) offs tw = some rm ∧
+      rm.rowWidth = numSegments polys.size N * N ∧ rm.elementsPerRow = polys.size ∧
+      rm.data.size = 2 ^ (k + 1 + b) * (numSegments polys.size N * N) ∧
+      ∀ row col, row < 2 ^ (k + 1 + b) → col < numSegments polys.size N * N →
+        vw rm.data (row * (numSegments polys.size N * N) + col) =
+          if col < polys.size then
+            evalAt (2 ^ (k + 1)) (colv polys col) (off * rootK τ A (k + 1 + b) ^ row)
+          else 0 := by
+  obtain ⟨hSpos, hCle, hpo⟩ := numSegments_props polys.size N hN hC
+  set S := numSegments polys.size N with hS
+  set R := 2 ^ (k + 1 + b) with hR
+  unfold rowMatrixFromPolys
+  rw [if_neg (by omega : ¬ N = 0)]
+  dsimp only
+  have hSeq : (if polys.size % N = 0 then polys.size / N else polys.size / N + 1) = S := rfl
+  rw [hSeq]
+  -- the segments
+  let seg : Nat → Array (Array F) := fun i =>
+    (segmentNew (fieldRowOps F) (· * ·) (0 : F) maxLoop N polys (2 ^ (k + 1)) (i * N) offs tw).getD #[]
+  have hseg : ∀ i, i < S →
+      segmentNew (fieldRowOps F) (· * ·) (0 : F) maxLoop N polys (2 ^ (k + 1)) (i * N) offs tw = some (seg i) ∧
+      (seg i).size = R ∧ ∀ q, q < R → (vw (seg i) q).size = N ∧ ∀ e, e < N → vw (vw (seg i) q) e =
+        if i * N + e < polys.size then evalAt (2 ^ (k + 1)) (colv polys (i * N + e)) (off * rootK τ A (k + 1 + b) ^ q)
+        else 0 := by
+    intro i hi
+    obtain ⟨sg, e, h1, h2⟩ := segmentNew_spec τ A k b hτ hk hk64 hb maxLoop N polys (i * N) (hpo i hi) hcols
+      tw htw off offs hos hov
+    have : seg i = sg := by simp [seg, e]
+    rw [this]; exact ⟨e, h1, h2⟩
+  rw [buildArr_spec _ seg S (fun i hi => (hseg i hi).1)]
+  set segs := Array.ofFn (n := S) (fun i => seg i) with hsegs
+  have hsegsz : segs.size = S := by simp [hsegs]
+  have hsegv : ∀ j, j < S → vw segs j = seg j := by
+    intro j hj
+    rw [vw_eq_getElem?, hsegs, getElem?_ofFn' seg S j hj]; rfl
+  have hs0 : segs[0]? = some (seg 0) := by rw [hsegs, getElem?_ofFn' seg S 0 hSpos]
+  have c1 : ¬ (segs.size = 0) := by omega
+  have c2 : ¬ (polys.size > segs.size * N) := by rw [hsegsz]; omega
+  simp only [c1, c2, ↓reduceIte, hs0, (hseg 0 hSpos).2.1]
+  obtain ⟨T, eT, hTs, hTv⟩ := transposeSegments_spec segs R (by omega)
+    (fun j hj => by rw [hsegv j (by omega)]; exact (hseg j (by omega)).2.1)
+  rw [hsegsz] at hTs hTv
+  have hTrow : ∀ t, t < T.size → (vw T t).size = N := by
+    intro t ht
+    rw [hTs] at ht
+    have hdm := Nat.div_add_mod t S
+    have hj : t % S < S := Nat.mod_lt _ hSpos
+    have hi : t / S < R := by rw [Nat.div_lt_iff_lt_mul hSpos]; exact ht
+    have : t = t / S * S + t % S := by rw [Nat.mul_comm]; omega
+    rw [this, hTv _ _ hi hj, hsegv _ hj]
+    exact ((hseg _ hj).2.2 _ hi).1
+  obtain ⟨d, ed, hds, hdv⟩ := flattenRows_spec T N hTrow
+  rw [eT, Option.bind_some, ed]
+  refine ⟨_, rfl, by simp [hsegsz], rfl, ?_, ?_⟩
+  · show d.size = R * (S * N)
+    rw [hds, hTs]; ring
+  · intro row col hrow hcol
+    show vw d (row * (S * N) + col) = _
+    have hdm := Nat.div_add_mod col N
+    have he : col % N < N := Nat.mod_lt _ hN
+    have hj : col / N < S := by rw [Nat.div_lt_iff_lt_mul hN]; exact hcol
+    have hidx : row * (S * N) + col = (row * S + col / N) * N + col % N := by
+      have : col = col / N * N + col % N := by rw [Nat.mul_comm]; omega
+      calc row * (S * N) + col = row * (S * N) + (col / N * N + col % N) := by rw [← this]
+        _ = (row * S + col / N) * N + col % N := by ring
+    have hcoleq : col / N * N + col % N = col := by rw [Nat.mul_comm]; omega
+    rw [hidx, vw_eq_getElem?, hdv _ _ (by rw [hTs]; exact idx_lt S R row _ hrow hj) he, ← vw_eq_getElem?,
+      hTv _ _ hrow hj, hsegv _ hj, ((hseg _ hj).2.2 _ hrow).2 _ he, hcoleq]
+
+theorem starkDomainBlowup_spec (τ : F) (A k b : Nat) (hk : k + 1 + b ≤ A) (tw : Array F) (hts : tw.size = 2 ^ k) :
+    starkDomainBlowup (fieldOps F τ A) tw (2 ^ b) = some (2 ^ b) := by
+  unfold starkDomainBlowup
+  rw [hts]
+  have c1 : ¬ ¬ (isPow2 (2 ^ k) = true ∧ isPow2 (2 ^ b) = true) := not_not.mpr ⟨isPow2_two_pow _, isPow2_two_pow _⟩
+  rw [if_neg c1]
+  have hce : 2 ^ k * 2 ^ b * 2 = 2 ^ (k + 1 + b) := by
+    rw [Nat.pow_add, Nat.pow_add]; ring
+  dsimp only
+  rw [hce, ilog2_two_pow]
+  simp only [rootOfUnity_fieldOps τ A (k + 1 + b) hk (by omega)]
+  congr 1
+  have : 2 ^ (k + 1 + b) = 2 ^ b * (2 ^ k * 2) := by rw [← hce]; ring
+  rw [this]
+  exact Nat.mul_div_cancel _ (by positivity)
+
+/-- (f) `RowMatrix::evaluate_polys_over::<N>` over the domain `from_twiddles(get_twiddles(n), 2^b, off)`:
+    for ANY number `C ≥ 1` of base columns and ANY segment width `N ≥ 1`, the row width is
+    `⌈C / N⌉ · N`, and cell `(row, col)` of the flat row-major data is the evaluation of polynomial `col` at
+    `off · g^row` (`g` the root of unity of the LDE domain); the padding cells `col ≥ C` are zero -/
+theorem evaluatePolysOver_spec (τ : F) (A k b : Nat) (hτ : IsPrimitiveRoot τ (2 ^ A)) (hk : k + 1 + b ≤ A)
+    (hk64 : k + 1 + b ≤ 64) (hb : 1 ≤ b) (maxLoop N : Nat) (hN : 0 < N) (polys : Array (Array F))
+    (hC : 0 < polys.size) (hcols : ∀ j, j < polys.size → (vw polys j).size = 2 ^ (k + 1))
+    (tw : Array F) (htw : getTwiddles (fieldOps F τ A) (2 ^ (k + 1)) = some tw) (off : F) :
+    ∃ rm, evaluatePolysOver (fieldRowOps F) (fieldOps F τ A) (0 : F) maxLoop N polys (2 ^ (k + 1)) tw (2 ^ b) off
+        = some rm ∧
+      rm.rowWidth = numSegments polys.size N * N ∧ rm.elementsPerRow = polys.size ∧
+      rm.data.size = 2 ^ (k + 1 + b) * (numSegments polys.size N * N) ∧
+      ∀ row col, row < 2 ^ (k + 1 + b) → col < numSegments polys.size N * N →
+        vw rm.data (row * (numSegments polys.size N * N) + col) =
+          if col < polys.size then
+            evalAt (2 ^ (k + 1)) (colv polys col) (off * rootK τ A (k + 1 + b) ^ row)
+          else 0 := by
+  obtain ⟨tw', e', hts, _⟩ := getTwiddles_spec (F := F) τ A k (by omega) (by omega)
+  rw [htw] at e'
+  obtain rfl : tw = tw' := Option.some.inj e'
+  obtain ⟨offs, eo, hos, hov⟩ := evaluationOffsets_spec τ A k b hk (by omega) off
+  unfold evaluatePolysOver
+  rw [if_neg (by omega : ¬ N = 0), starkDomainBlowup_spec τ A k b hk tw hts]
+  simp only [eo]
+  exact rowMatrixFromPolys_spec τ A k b hτ hk hk64 hb maxLoop N hN polys hC hcols tw htw off offs hos hov
 
 end slots
 
